@@ -12,3 +12,8 @@ func verifSchedulePoint(i int, n int) {
 		VerifSchedulePoint(i, n)
 	}
 }
+
+// VerifSplitIntoChunks exposes the chunking of the parallel parser to the harness.
+func VerifSplitIntoChunks(txt string, numberOfBatches int) []string {
+	return splitIntoChunks(txt, numberOfBatches)
+}
